@@ -572,6 +572,8 @@ enum LimitText {
     Edge(u8),
     Invalid(u8),
     InvalidText(String),
+    /// a whole number above u32::MAX: capped at the server maximum or refused, never anything else
+    Huge(u64),
 }
 
 #[derive(Clone, Debug, Serialize, Deserialize)]
@@ -588,6 +590,7 @@ fn live_case() -> impl Strategy<Value = LiveCase> {
         3 => (0u8..8).prop_map(LimitText::Edge),
         3 => (0u8..12).prop_map(LimitText::Invalid),
         2 => "[a-zA-Z.,+ -]{1,6}".prop_map(LimitText::InvalidText),
+        2 => prop_oneof![(1u64 << 32) + 1..(1u64 << 32) + 20000, (1u64 << 32) + 1..u64::MAX, Just(u64::MAX), Just((1u64 << 33) + 7)].prop_map(LimitText::Huge),
     ];
     prop_oneof![
         4 => (lt, any::<bool>()).prop_map(|(l, t)| LiveCase::Limit(l, t)),
@@ -606,6 +609,26 @@ fn check_live(addr: std::net::SocketAddr, entered: &dyn Fn() -> u64, rt: &tokio:
     };
     st.eval();
     match c {
+        LiveCase::Limit(LimitText::Huge(n), with_token) => {
+            let mut st2 = Style(7);
+            let mut target = "/limit?".to_string();
+            if *with_token {
+                let tok = b64url_encode(&serde_json::to_vec(&json!({"v": "v1", "page_start": {"n": 5, "order": "ascending", "last": 1, "pad": null}})).unwrap());
+                target.push_str(&format!("page_token={}", enc_component(&tok, &mut st2, false)));
+            } else {
+                target.push_str("n=5");
+            }
+            target.push_str(&format!("&limit={}", n));
+            let resp = get(target.clone())?;
+            st.count("limit_huge");
+            st.nontrivial(hash_str(&target));
+            if resp.status == 200 {
+                let j = resp.json().unwrap_or(Value::Null);
+                ensure!(j["limit"] == json!(10000), "limit-clamp", "GET {}: a limit above the server maximum must be capped at 10000 (or refused), handler saw {}", target, j["limit"]);
+            } else {
+                ensure!((400..500).contains(&resp.status), "invalid-limit-status", "GET {}: got {} {}", target, resp.status, truncate(&resp.body_text(), 200));
+            }
+        }
         LiveCase::Limit(lt, with_token) => {
             let (text, want): (Option<String>, Option<u32>) = match lt {
                 LimitText::Absent => (None, Some(100)),
@@ -621,6 +644,7 @@ fn check_live(addr: std::net::SocketAddr, entered: &dyn Fn() -> u64, rt: &tokio:
                     }
                     (Some(t.clone()), None)
                 }
+                LimitText::Huge(_) => unreachable!("handled above"),
             };
             let mut st2 = Style(7);
             let mut target = "/limit?".to_string();
@@ -687,7 +711,7 @@ fn check_live(addr: std::net::SocketAddr, entered: &dyn Fn() -> u64, rt: &tokio:
 }
 
 pub fn run(ctx: &mut Ctx) {
-    ctx.rule = "round trip: typed and free-form JSON selectors (any Unicode, numbers, nesting) with sizes concentrated around the 512-character bound, issued with ResultsPage::new and accepted with serde_urlencoded::from_str::<PaginationParams<..>>, alone and together with arbitrary/ill-typed scan parameters; refusal: tokens invalid by construction (over-long but otherwise valid, character outside the URL-safe alphabet, base64 of non-JSON, missing v/page_start, wrong version, wrong shape, trailing garbage, empty) and free byte mutations of valid tokens judged against a lenient independent decoder; live: 4xx for bad tokens, limit clamp table. non-trivial: issued token within 16 characters of the bound or non-ASCII selector; every bad token and limit string (distinct by text)".into();
+    ctx.rule = "round trip: typed and free-form JSON selectors (any Unicode, numbers, nesting) with sizes concentrated around the 512-character bound, issued with ResultsPage::new and accepted with serde_urlencoded::from_str::<PaginationParams<..>>, alone and together with arbitrary/ill-typed scan parameters; refusal: tokens invalid by construction (over-long but otherwise valid, character outside the URL-safe alphabet, base64 of non-JSON, missing v/page_start, wrong version, wrong shape, trailing garbage, empty) and free byte mutations of valid tokens judged against a lenient independent decoder; live: 4xx for bad tokens, limit clamp table incl. whole numbers between 2^32 and 2^64 (capped or refused). non-trivial: issued token within 16 characters of the bound or non-ASCII selector; every bad token and limit string (distinct by text)".into();
     ctx.assume("selectors contain no floats; limit is not a scan parameter (an invalid limit next to a token is still refused)");
     ctx.phase("fuzz_input", 0, Just(FuzzInput { bytes: vec![] }), check_fuzz_input);
     let n = ctx.tier.pick(20000, 400000);
